@@ -31,7 +31,7 @@ WATCHDOG = {"quick": 300, "thorough": 900}
 
 
 def lanes(tier):
-    return [("plain", "plain", 160 if tier == "quick" else 12000)]
+    return [("plain", "plain", 480 if tier == "quick" else 12000)]
 
 
 def run_one(rng, counters):
